@@ -25,7 +25,7 @@ Section CtlProofs.
   Lemma do_lasts_only_lasts : forall cs s, do_lasts c cs s = do_lasts c (filter is_last_when cs) s.
   Proof.
     induction cs as [|cm cs IH]; intros s; [reflexivity|].
-    destruct cm as [a|cd nc a|cd]; cbn [filter is_last_when do_lasts]; try apply IH.
+    destruct cm as [a|cd nc a|cd|cd a]; cbn [filter is_last_when do_lasts]; try apply IH.
     destruct cd; cbn [filter is_last_when do_lasts]; apply IH.
   Qed.
 
